@@ -39,6 +39,8 @@ def scanner_bounds(g, n, maxnul, refills=0):
         'getc': n + 2,
         'fread': 2,
         'shiftup': n + 4,
+        'fn:yy_flex_strncpy': n + 3,
+        'fn:yy_flex_strlen': n + 3,
     }
 
 
@@ -60,7 +62,7 @@ def e1_jobs(ctx, spec, cfg, lengths, maxnul=1, nodefault=False, checks='function
                      checks=checks, harness_bound=None, timeout=timeout, mem_mb=mem_mb,
                      gen_file=g.cpath, expect='witness' if witness_rule else 'proved',
                      meta=dict(engine='E1', entry=spec.name, config=cfg.name,
-                               bound='len=%d nul<=%d' % (n, k), flex_input=g.ltext))
+                               bound='len=%d nul<=%d' % (n, k), flex_input=g.ltext, flex_args=g.args, scanner=os.path.basename(g.cpath)))
         jobs.append(j)
     ctx.functions.update(['yylex', 'yy_get_previous_state', 'yy_try_NUL_trans', 'yy_get_next_buffer',
                           'yy_scan_buffer', 'yy_switch_to_buffer', 'yy_load_buffer_state', 'yyensure_buffer_stack'])
@@ -97,7 +99,40 @@ def e2_jobs(ctx, spec, cfg, depth, checks='functional', timeout=300, mem_mb=8000
                      harness_bound=None, timeout=timeout, mem_mb=mem_mb, gen_file=g.cpath,
                      expect=expect,
                      meta=dict(engine='E2', entry=spec.name, config=cfg.name,
-                               bound='depth<=%d' % depth, flex_input=g.ltext))
+                               bound='depth<=%d' % depth, flex_input=g.ltext, flex_args=g.args, scanner=os.path.basename(g.cpath)))
         jobs.append(j)
     ctx.functions.update(['yy_get_previous_state', 'yy_scan_buffer'])
+    return jobs, g
+
+
+def e3_jobs(ctx, spec, cfg, ms, bss, tokens=2, witness_first=True, timeout=900, mem_mb=12000,
+            extra_options=(), maxnul=1, tagx=''):
+    """Refill jobs: one per (stream length m, buffer capacity bs)."""
+    wd, g = _prep(ctx, spec, cfg, 'e3' + tagx, extra_options=ALLOC_OPTS + ['never-interactive'] + list(extra_options))
+    jobs = []
+    if not g.ok:
+        return jobs, g
+    first = True
+    for m in ms:
+        for bs in bss:
+            variants = [False]
+            if witness_first and first and m >= 2:
+                variants.append(True)
+                first = False
+            for w in variants:
+                src = os.path.join(wd, 'e3_m%d_b%d%s.c' % (m, bs, '_w' if w else ''))
+                with open(src, 'w') as fh:
+                    fh.write(H.e3_harness(g, cfg, spec, m, bs, tokens=tokens, witness=w, maxnul=min(maxnul, m)))
+                b = scanner_bounds(g, m, min(maxnul, m), refills=m + 1)
+                b['grow'] = 4
+                b['move'] = m + 2
+                j = cbmc.Job('e3_%s_%s_m%d_b%d%s' % (spec.name, cfg.name, m, bs, '_w' if w else ''),
+                             wd, [src], b, includes=[wd, H.HDIR], harness_bound=None, timeout=timeout,
+                             mem_mb=mem_mb, gen_file=g.cpath, expect='witness' if w else 'proved',
+                             meta=dict(engine='E3', entry=spec.name, config=cfg.name,
+                                       bound='stream=%d bytes, buffer=%d, tokens<=%d, any read schedule' % (m, bs, tokens),
+                                       flex_input=g.ltext, flex_args=g.args))
+                jobs.append(j)
+    ctx.functions.update(['yylex', 'yy_get_next_buffer', 'yy_get_previous_state', 'yy_try_NUL_trans',
+                          'yy_create_buffer', 'yy_init_buffer', 'yy_flush_buffer', 'yyrestart'])
     return jobs, g
